@@ -915,7 +915,10 @@ def coq_terms(case, obs):
                 if emitted_step:
                     continue
                 emitted_step = True
-            t = _run_term(case, st)
+            try:
+                t = _run_term(case, st)
+            except AssertionError:
+                t = None      # counts beyond what the unary literals of the Gallina term can carry (thousands of evaluations): oracle only
             if t:
                 T.append(t)
         return T
